@@ -67,7 +67,9 @@ type c18In struct {
 	CE     string      `json:"ce"`
 	CL     string      `json:"cl,omitempty"`    // exact | chunked | lie:<n>
 	RdErr  bool        `json:"rderr,omitempty"` // in-process only
-	Route  string      `json:"route,omitempty"` // echo | health | describe
+	Route  string      `json:"route,omitempty"` // describe | a registered method name (c18Methods)
+	Prefix string      `json:"prefix,omitempty"` // SetPrefix of the server ("" = none)
+	Path   string      `json:"path,omitempty"`   // direct: the request path readHTTPBody sees (default /echo)
 	Real   bool        `json:"real,omitempty"`
 	M      int64       `json:"m,omitempty"`
 	Note   string      `json:"note,omitempty"`
@@ -490,8 +492,11 @@ var (
 	c18MrbRe   = regexp.MustCompile(`max_request_bytes=(-?\d+)`)
 )
 
-func c18Server(ops []c18Setter) *c18Srv {
-	key := fmt.Sprint(ops)
+// registered unary methods: the exempt probe name itself and names that merely resemble it
+var c18Methods = []string{"echo", "health", "healthcheck", "health_echo", "healthz", "xhealth", "heal"}
+
+func c18Server(ops []c18Setter, prefix string) *c18Srv {
+	key := fmt.Sprint(ops) + "|" + prefix
 	if s, ok := c18Servers[key]; ok {
 		return s
 	}
@@ -505,9 +510,13 @@ func c18Server(ops []c18Setter) *c18Srv {
 		s.mu.Unlock()
 		return int64(len(p.Data)), nil
 	}
-	vgirpc.Unary(srv, "echo", handler)
-	vgirpc.Unary(srv, "health", handler) // POST /health is a max_request_bytes-exempt path
+	for _, m := range c18Methods { // POST {prefix}/health is a max_request_bytes-exempt path, the others are not
+		vgirpc.Unary(srv, m, handler)
+	}
 	h := vgirpc.NewHttpServer(srv)
+	if prefix != "" {
+		h.SetPrefix(prefix)
+	}
 	for _, o := range ops {
 		switch o.K {
 		case "mrb":
@@ -576,7 +585,7 @@ type c18Built struct {
 var c18BuildCache = map[string]c18Built{}
 
 func c18Build(in c18In) c18Built {
-	key := fmt.Sprintf("%s|%s|%d|%d|%v|%v", in.Kind, in.Route, in.Seed, in.N, in.Layers, in.Kind == "stack")
+	key := fmt.Sprintf("%s|%s|%s|%d|%d|%v|%v", in.Kind, in.Route, in.Prefix, in.Seed, in.N, in.Layers, in.Kind == "stack")
 	if b, ok := c18BuildCache[key]; ok {
 		return b
 	}
@@ -593,15 +602,17 @@ func c18BuildUncached(in c18In) c18Built {
 	switch {
 	case in.Kind == "http" && in.Route == "describe":
 		b.inner = c18DescribeRequest()
-		b.path = "/__describe__"
+		b.path = in.Prefix + "/__describe__"
 	case in.Kind == "http":
 		b.payload = c18Pat(in.Seed, 0, in.N)
 		m := "echo"
-		if in.Route == "health" {
-			m = "health"
+		for _, known := range c18Methods {
+			if in.Route == known {
+				m = known
+			}
 		}
 		b.inner = c18EchoRequest(m, b.payload)
-		b.path = "/" + m
+		b.path = in.Prefix + "/" + m
 	default:
 		b.inner = c18Pat(in.Seed, 0, in.N)
 	}
@@ -697,8 +708,20 @@ func c18Run(in c18In) CaseOut {
 		return CaseOut{Coq: names.wrap(Pair(coqIn, App("C18.OStack", r))), Tags: tags, Nontrivial: len(in.Layers) > 0, Obs: obs}
 	}
 
-	s := c18Server(in.Ops)
-	exempt := in.Kind == "http" && in.Route == "health"
+	s := c18Server(in.Ops, in.Prefix)
+	reqPath := b.path
+	if in.Kind == "direct" {
+		reqPath = in.Path
+		if reqPath == "" {
+			reqPath = "/echo"
+		} else if reqPath == "<empty>" {
+			reqPath = ""
+		}
+	}
+	tags = append(tags, "prefix="+in.Prefix)
+	if strings.Contains(strings.ToLower(reqPath), "heal") {
+		tags = append(tags, "path-resembles-health")
+	}
 	cl := int64(len(b.wire))
 	switch {
 	case in.CL == "chunked":
@@ -707,11 +730,12 @@ func c18Run(in c18In) CaseOut {
 		cl, _ = strconv.ParseInt(in.CL[4:], 10, 64)
 	}
 	tags = append(tags, "cl="+strings.SplitN(in.CL+":", ":", 2)[0], fmt.Sprintf("ops=%d", len(in.Ops)))
-	rq := App("C18.Build_request", Bool(exempt), Z(cl), names.B(b.wire), Bool(in.RdErr), B(in.CE))
+	rq := App("C18.Build_request", "false", Z(cl), names.B(b.wire), Bool(in.RdErr), B(in.CE))
 
 	if in.Kind == "direct" {
 		cb := &c18Body{r: bytes.NewReader(b.wire), fail: in.RdErr}
 		req := httptest.NewRequest("POST", "/echo", cb)
+		req.URL.Path = reqPath
 		req.ContentLength = cl
 		if in.CE != "" {
 			req.Header.Set("Content-Encoding", in.CE)
@@ -732,7 +756,7 @@ func c18Run(in c18In) CaseOut {
 			obs["names_max_request_bytes"] = strings.Contains(err.Error(), "max_request_bytes")
 		}
 		obs["bytes_read"] = cb.n
-		coqIn := App("C18.Direct", c18Ops(in.Ops), rq, names.table(b.entries))
+		coqIn := App("C18.DirectAt", B(in.Prefix), B(reqPath), c18Ops(in.Ops), rq, names.table(b.entries))
 		return CaseOut{Coq: names.wrap(Pair(coqIn, o)), Tags: tags, Nontrivial: true, Obs: obs}
 	}
 
@@ -810,7 +834,7 @@ func c18Run(in c18In) CaseOut {
 		tags = append(tags, fmt.Sprintf("names-mrb=%v", m != nil))
 		o = App("C18.OHttpRefused", Z(int64(status)), nm, Bool(plain), Z(nread))
 	}
-	coqIn := App("C18.Http", c18Ops(in.Ops), rq, names.table(b.entries))
+	coqIn := App("C18.HttpAt", B(in.Prefix), B(reqPath), c18Ops(in.Ops), rq, names.table(b.entries))
 	return CaseOut{Coq: names.wrap(Pair(coqIn, o)), Tags: tags, Nontrivial: true, Obs: obs}
 }
 
@@ -1008,6 +1032,84 @@ func c18Gen(r *rand.Rand, n int, tier string) []c18In {
 		}
 	}
 	add(c18In{Kind: "http", Route: "echo", Seed: 5, N: 500, CL: "exact", Real: true, Note: "precheck", Ops: []c18Setter{{"mrb", 300}}})
+	// 8b. which routes escape the advertised cap: the health probe and what lies below it, against
+	// paths / method names that merely resemble it, under three route prefixes. Bodies over the
+	// advertised cap (identity), decoded over it (gzip / zstd with the raw size within), and within it.
+	gzOne := []c18Layer{{Coding: "gzip", Frames: []c18Frame{{Mode: "member", Level: 6}}}}
+	zsOne := []c18Layer{{Coding: "zstd", Frames: []c18Frame{{Mode: "single", Level: 2}}}}
+	pi := 0
+	for xi, pfx := range []string{"", "/vgi", "/health", "/api/v1"} {
+		paths := []string{"/health", "/health/", "/health/live", "/health/x/init", "/healthcheck", "/health_echo", "/healthz",
+			"/health_status/init", "/health.x", "/healthx/exchange", "/Health", "/HEALTH/x", "/xhealth", "/x/health", "/heal", "/healt",
+			"/", "<empty>", "/echo", "//health", "/health//", "/healt/h", "health", "/health\\x"}
+		if pfx != "" {
+			paths = append(paths, pfx+"/health", pfx+"/health/ready", pfx+"/healthcheck", pfx+"/health_echo/init", pfx+"/healthz",
+				pfx+"x/health", pfx+"/x/health", pfx+"/echo", pfx, pfx+"/", strings.ToUpper(pfx)+"/health", pfx+"/health/"+"x", pfx[:len(pfx)-1]+"/health")
+		}
+		for _, path := range paths {
+			pi++
+			if tier != "thorough" && ((xi == 1 && pi%2 != 0) || (xi >= 2 && pi%4 != 0)) {
+				continue
+			}
+			// identity, 40 bytes over an advertised cap of 25 (the default wire cap stays 64 MiB)
+			add(c18In{Kind: "direct", Prefix: pfx, Path: path, Seed: 2, N: 40, CL: "exact", Note: "exempt-path-raw-over", Ops: []c18Setter{{"mrb", 25}}})
+			switch pi % 3 {
+			case 0: // gzip: raw within the advertised cap, decoded over it
+				add(c18In{Kind: "direct", Prefix: pfx, Path: path, Seed: 4, N: 900, Layers: gzOne, CE: "gzip", CL: "exact", Note: "exempt-path-decoded-over", Ops: []c18Setter{{"mrb", 600}}})
+			case 1: // zstd, also with an explicit decoded cap that stays in force for exempt paths
+				add(c18In{Kind: "direct", Prefix: pfx, Path: path, Seed: 6, N: 1500, Layers: zsOne, CE: "zstd", CL: "exact", Note: "exempt-path-decoded-over", Ops: []c18Setter{{"mrb", 1200}, {"mds", 4000}}})
+			case 2: // within every cap, and the wire cap tighter than the advertised one
+				add(c18In{Kind: "direct", Prefix: pfx, Path: path, Seed: 8, N: 40, CL: "exact", Note: "exempt-path-wire-tighter", Ops: []c18Setter{{"mrb", 100}, {"mbs", 30}}})
+			}
+		}
+	}
+	// the same through ServeHTTP and real routes: every registered method name under two prefixes
+	hi := 0
+	for _, pfx := range []string{"", "/vgi"} {
+		for _, m := range c18Methods {
+			for bi := 0; bi < 4; bi++ {
+				hi++
+				in := c18In{Kind: "http", Route: m, Prefix: pfx, Seed: int64(2*bi + 1), N: 300, CL: "exact", Note: "exempt-route"}
+				switch bi {
+				case 0: // identity over the advertised cap: the pre-check (declared) or the read (chunked) refuses
+					in.Ops = []c18Setter{{"mrb", 200}}
+				case 1: // gzip: raw within, decoded over
+					in.Layers, in.CE = gzOne, "gzip"
+					R, D := c18Sizes(c18Build(in))
+					in.Ops = []c18Setter{{"mrb", (R + D) / 2}}
+				case 2: // zstd: raw within, decoded over
+					in.Layers, in.CE = zsOne, "zstd"
+					R, D := c18Sizes(c18Build(in))
+					in.Ops = []c18Setter{{"mrb", (R + D) / 2}}
+				case 3: // within
+					in.Ops = []c18Setter{{"mrb", 5000}}
+				}
+				switch hi % 4 {
+				case 1:
+					in.CL = "chunked"
+				case 2:
+					in.Real = true
+				case 3:
+					in.Real, in.CL = true, "chunked"
+				}
+				if tier != "thorough" && m != "health" && m != "healthcheck" && m != "health_echo" && (hi+bi)%2 == 0 {
+					continue
+				}
+				add(in)
+			}
+		}
+	}
+
+	// 8c. histories: a zstd decode under a small decoded cap, then one with NO cap whose window and
+	// size exceed that earlier cap (a decoder must not carry a bound from one call to the next)
+	bigWin := []c18Layer{{Coding: "zstd", Frames: []c18Frame{{Mode: "stream", Level: 4, Window: 1 << 16}}}}
+	for rep := 0; rep < 3; rep++ {
+		add(c18In{Kind: "direct", Seed: int64(2 * rep), N: 1500, Layers: zsOne, CE: "zstd", CL: "exact", Note: "history-capped-then-uncapped", Ops: []c18Setter{{"mds", 2048}}})
+		add(c18In{Kind: "direct", Seed: int64(2 * rep), N: 3000 + rep, Layers: bigWin, CE: "zstd", CL: "exact", Note: "history-capped-then-uncapped", Ops: []c18Setter{{"mbs", 0}, {"mds", -1}}})
+		add(c18In{Kind: "stack", Seed: int64(2 * rep), N: 1500, Layers: zsOne, CE: "zstd", M: 2048, Note: "history-capped-then-uncapped"})
+		add(c18In{Kind: "stack", Seed: int64(2 * rep), N: 3000 + rep, Layers: bigWin, CE: "zstd", M: 0, Note: "history-capped-then-uncapped"})
+	}
+
 	// 9. coding stacks through DecodeContentEncoding
 	zs := func(mode string) c18Layer {
 		return c18Layer{Coding: "zstd", Frames: []c18Frame{{Mode: mode, Level: 2, Window: 1024}}}
@@ -1105,9 +1207,15 @@ func c18Gen(r *rand.Rand, n int, tier string) []c18In {
 			if r.Intn(10) == 0 {
 				in.RdErr = true
 			}
+			if r.Intn(3) == 0 { // a path around the exempt routes
+				in.Prefix = []string{"", "/vgi", "/health"}[r.Intn(3)]
+				tails := []string{"/health", "/health/x", "/healthcheck", "/health_echo/init", "/healthz", "/xhealth", "/echo", "/health/", "/Health"}
+				in.Path = []string{"", in.Prefix}[r.Intn(2)] + tails[r.Intn(len(tails))]
+			}
 		case x < 8:
 			in.Kind = "http"
-			in.Route = []string{"echo", "echo", "health", "describe"}[r.Intn(4)]
+			in.Route = []string{"echo", "echo", "health", "describe", "healthcheck", "health_echo", "healthz", "xhealth", "heal"}[r.Intn(9)]
+			in.Prefix = []string{"", "", "/vgi"}[r.Intn(3)]
 			if N > 3000 {
 				in.N = N % 3000
 			}
